@@ -1,6 +1,6 @@
 #!/bin/bash
 # Build the harness binary against /repo's current working tree with the hooks on.
-#   ./build.sh [small|ship]   -> /verif/.target/<cfg>/release/vh
+#   ./build.sh [small|ship|rel]   -> /verif/.target/<cfg>/release/vh
 set -e
 cd "$(dirname "$0")/harness"
 CFG="${1:-small}"
@@ -9,4 +9,11 @@ export CARGO_NET_OFFLINE=true
 export CARGO_TARGET_DIR=/verif/.target/$CFG
 FEAT=""
 if [ "$CFG" = "small" ]; then FEAT="--features small"; fi
+# "rel": the small configuration as a plain release build: debug assertions and overflow checks OFF
+# (code inside debug_assert! is not executed there). Used for the sequential checks.
+if [ "$CFG" = "rel" ]; then
+  FEAT="--features small"
+  export CARGO_PROFILE_RELEASE_DEBUG_ASSERTIONS=false
+  export CARGO_PROFILE_RELEASE_OVERFLOW_CHECKS=false
+fi
 cargo build --release --offline $FEAT "${@:2}"
